@@ -464,9 +464,99 @@ def address_patterns_whole(ctx: Ctx, rep: Report, rid: str = "R13.7") -> None:
     rep.floor(1, "module-level address patterns") if n else rep.note(f"{rid} no module-level pattern constant matches a dotted address")
 
 
+def members_follow_group_name(ctx: Ctx, rep: Report, rid: str = "R13.9") -> None:
+    """The members an address-group reference is judged by belong to the group it NAMES: (a) a reader that stores a new
+    group name (`_line_addrgroup`) empties the member list unless the name is the old one; (b) where `Ace.line` hands the
+    members of the address that stood at that position before to the address it builds from the new text, the setter
+    compares the group names and drops the members when they differ (or looks the members up by name).  Otherwise
+    `ace.line = 'permit ip object-group H object-group G'` judges H by the members of G."""
+    rep.rule(rid)
+    n = 0
+    for f in [g for g in ctx.prog.funcs if g.name == "_line_addrgroup" and g.cls is not None]:
+        if not any(isinstance(x, ast.Attribute) and isinstance(x.ctx, ast.Store) and src(x.value) == "self" and x.attr == "_addrgroup" for x in own_nodes(f.node)):
+            continue
+        n += 1
+        rep.instance()
+        resets = [x for x in own_nodes(f.node) if isinstance(x, ast.Assign) and any(isinstance(t, ast.Attribute) and src(t.value) == "self" and t.attr.lstrip("_") == "items" for t in x.targets) and isinstance(x.value, (ast.List, ast.Call)) and not getattr(x.value, "elts", None) and not getattr(x.value, "args", None)]
+        if resets:
+            rep.ok(f"{f.qualname}", f"a new group name empties the members ({snippet(resets[0], 30)})", where=where(f, resets[0]))
+        else:
+            rep.violation(f.qualname, "self._addrgroup = <new name>", "the address is re-read under another group name but keeps the member list of the old group: every containment and shadow answer about it is given for the wrong members", where(f), inp="a = Address('object-group G', items=['10.0.0.0 0.0.255.255']); a.line = 'object-group H'; Address('host 10.0.0.5').subnet_of(a) is True")
+    f = ctx.prog.find_func("Ace.line.setter")
+    if f is not None:
+        carries = []
+        for c in [x for x in own_nodes(f.node) if isinstance(x, ast.Call)]:
+            for k in c.keywords:
+                if k.arg == "items" and any(isinstance(z, ast.Attribute) and z.attr.lstrip("_") in ("srcaddr", "dstaddr") and src(z.value) == "self" for z in ast.walk(k.value)):
+                    carries.append((c, k.value))
+        if carries:
+            n += 1
+            rep.instance()
+            by_name = [x for x in own_nodes(f.node) if isinstance(x, ast.Compare) and sum(1 for y in ast.walk(x) if (isinstance(y, ast.Attribute) and y.attr.lstrip("_") == "addrgroup") or (isinstance(y, ast.Name) and "addrgroup" in y.id)) >= 2]
+            looked_up = [x for x in own_nodes(f.node) if (isinstance(x, ast.Subscript) and any(isinstance(y, ast.Attribute) and y.attr.lstrip("_") == "addrgroup" for y in ast.walk(x.slice))) or (isinstance(x, ast.Call) and isinstance(x.func, ast.Attribute) and x.func.attr == "get" and x.args and any(isinstance(y, ast.Attribute) and y.attr.lstrip("_") == "addrgroup" for y in ast.walk(x.args[0])))]
+            if by_name or looked_up:
+                rep.ok("Ace.line.setter", f"members carried over from the previous address are kept only for the same group name ({snippet((by_name or looked_up)[0], 40)})", where=where(f, (by_name or looked_up)[0]))
+            else:
+                rep.violation("Ace.line.setter", f"{snippet(carries[0][0], 30)} items={snippet(carries[0][1], 30)}", "the address built from the new text receives the members of the address that stood at that position before, whatever group the new text names: after `ace.line = ...` with the groups swapped or renamed, containment and shadow answers are given for the members of the other group", where(f, carries[0][0]), inp="ace = acls(cfg)[0].items[0]  # permit ip object-group G object-group H; ace.line = 'permit ip object-group H object-group G'")
+    if n == 0:
+        rep.note(f"{rid} neither a group-name reader nor a member carry-over recognised - not judged")
+
+
+def every_member_is_asked(ctx: Ctx, rep: Report, rid: str = "R13.10") -> None:
+    """`x in group` is True exactly when SOME member contains x - whatever the order of the members.  A loop over the
+    members that can end with a positive answer (`return True`, `break`) does not let an error about one member leave
+    before the others were asked: no `raise` in that loop, and the member test `x in item` (which raises TypeError for a
+    member that cannot be asked: a non-contiguous wildcard, a nested group) stands inside a `try`.  Otherwise the same
+    group answers True with the containing member first and raises with it second."""
+    rep.rule(rid)
+    n = 0
+    scope = []
+    for q in ("AddrGroup.__contains__", "AddressBase.__contains__"):
+        f = ctx.prog.find_func(q)
+        if f is None:
+            continue
+        scope.append(f)
+        for x in own_nodes(f.node):
+            if isinstance(x, ast.Call) and isinstance(x.func, ast.Attribute) and src(x.func.value) == "self" and x.func.attr.startswith("_") and f.cls is not None:
+                g = f.cls.lookup_method(x.func.attr)
+                if g is not None and g not in scope:
+                    scope.append(g)
+    for f in scope:
+        for lp in [x for x in own_nodes(f.node) if isinstance(x, ast.For) and isinstance(x.target, ast.Name) and isinstance(x.iter, ast.Attribute) and x.iter.attr.lstrip("_") == "items" and src(x.iter.value) == "self"]:
+            var = lp.target.id
+            body_nodes = [y for b in lp.body for y in ast.walk(b)]
+            positive = [y for y in body_nodes if (isinstance(y, ast.Return) and isinstance(y.value, ast.Constant) and y.value.value is True) or isinstance(y, ast.Break)]
+            if not positive:
+                continue
+            n += 1
+            rep.instance()
+            in_try = {id(z) for y in body_nodes if isinstance(y, ast.Try) for b in y.body for z in ast.walk(b)}
+            raises = [y for y in body_nodes if isinstance(y, ast.Raise) and id(y) not in in_try and not _in_handler(y, lp)]
+            asks = [y for y in body_nodes if isinstance(y, ast.Compare) and len(y.ops) == 1 and isinstance(y.ops[0], ast.In) and src(y.comparators[0]) == var and id(y) not in in_try]
+            bad = raises or asks
+            if bad:
+                what = "raises inside the loop" if raises else f"asks `{snippet(asks[0], 30)}` outside a try"
+                rep.violation(f.qualname, f"for {var} in {snippet(lp.iter, 20)}: {snippet(bad[0], 50)}", f"the loop over the members can answer True and {what}: a member that cannot be asked (TypeError) standing BEFORE the member that contains the address hides the positive answer - the result depends on the order of the members", where(f, bad[0]), inp="AddressAg('host 10.0.0.1') in AddrGroup(items=['20.0.0.0 0.0.3.3', '10.0.0.0/8'], platform='nxos')  # TypeError; with the members swapped: True")
+            else:
+                rep.ok(f"{f.qualname}: for {var} in {snippet(lp.iter, 20)}", "every member is asked before an error about one of them may leave", where=where(f, lp))
+    if n == 0:
+        rep.note(f"{rid} no member loop with a positive exit in the containment operators - not judged")
+
+
+def _in_handler(y: ast.AST, top: ast.AST) -> bool:
+    p = getattr(y, "_parent", None)
+    while p is not None and p is not top:
+        if isinstance(p, ast.ExceptHandler):
+            return True
+        p = getattr(p, "_parent", None)
+    return False
+
+
 def run(ctx: Ctx, rep: Report, tier: str) -> None:
     list_level(ctx, rep)
+    every_member_is_asked(ctx, rep)
     address_patterns_whole(ctx, rep)
+    members_follow_group_name(ctx, rep)
     rep.rule("R13.3")
     n = 0
     for q in ("AddressBase.__contains__", "AddrGroup.__contains__"):
